@@ -55,13 +55,15 @@ NumPairs == SumSeq([n \in 1..Len(lists[cur]) |-> Len(lists[cur][n].acts)])
 NumEntries == Len(lists[cur])
 
 Init == /\ g \in 1..Len(Games)
-        /\ scale \in IF Slim THEN {"one", "max"} \cup (IF g = 1 THEN {"near-third"} ELSE {})
+        /\ scale \in IF Slim THEN {"one", "max"} \cup (IF g = 1 THEN {"near-third"} ELSE {"tiny"})
                                ELSE {"one", "tiny", "huge", "max", "near-half", "near-third"}
         /\ cur \in 1..2
         /\ \E other \in OtherChoices(Games[g][3 - cur]) :
               lists = [q \in 1..2 |-> IF q = cur THEN <<>> ELSE other]
 
-NewEntry == /\ NumEntries < MaxEntries
+\* the scale classes other than "one" only with a single entry per player in the slim universe (the
+\* specified result does not depend on the scale; what they probe is the arithmetic of one infoset)
+NewEntry == /\ NumEntries < (IF Slim /\ scale # "one" THEN 1 ELSE MaxEntries)
             /\ \E info \in InfoAlphabet(Games[g]) :
                  lists' = [lists EXCEPT ![cur] = Append(@, [info |-> info, acts |-> <<>>])]
             /\ UNCHANGED <<g, scale, cur>>
